@@ -73,7 +73,7 @@ func main() {
 	if !leakBuild {
 		r.Fatal("built without -tags leakcheck: set VARIANT=leak in check.conf")
 	}
-	r.SetRule("history i = transport (pipe session / HTTP handler, alternating) x server config (plain, dispatch hook, external storage with a 96-byte threshold, with zstd, max_response_bytes, max_externalized_response_bytes, producer batch limit) x 1..5 calls; first call's class = class list[(i/2) mod 42] (quota by construction), the rest uniform over 42 classes: unary value/void/error/panic/parameter mismatch/unknown method/0 and 2 rows/extra batch/describe/oversized result/request via external storage; streams complete/failing turn (error, panic, no emit, second emit)/finish variants/cancel with and without OnCancel/client walks away/castable, non-castable and half-castable input/init error, panic, nil, wrong state/parameter mismatch/oversized turns/exchange input via external storage (one batch, several, log first, missing, pointer loop)/request via external storage/stream header (an ArrowSerializable value with four fields) that serialises, or fails at its 1st, 2nd or 3rd field, and the same value as a unary result; every 9th history has a server-side writer failing at byte N; the allocators are compared before/after every call; distinct = transport x config x class sequence")
+	r.SetRule("history i = transport (pipe session / HTTP handler, alternating) x server config (plain, dispatch hook, external storage with a 96-byte threshold, with zstd, max_response_bytes, max_externalized_response_bytes, producer batch limit) x 1..5 calls; first call's class = class list[(i/2) mod 48] (quota by construction), the rest uniform over 48 classes: unary value/void/error/panic/parameter mismatch/unknown method/0 and 2 rows/extra batch/describe/oversized result/request via external storage; streams complete/failing turn (error, panic, no emit, second emit)/finish variants/cancel with and without OnCancel/client walks away/castable, non-castable and half-castable input/init error, panic, nil, wrong state/parameter mismatch/oversized turns/exchange input via external storage (one batch, several, log first, missing, pointer loop)/request via external storage/stream header (an ArrowSerializable value with four fields) that serialises, or fails at its 1st, 2nd or 3rd field, and the same value as a unary result; every 9th history has a server-side writer failing at byte N; the allocators are compared before/after every call; distinct = transport x config x class sequence")
 	r.Assume("allocations arrow-go makes with its own default allocator (ipc.NewReader inside ReadRequest / the input stream reader) are invisible to the checked allocator; only what the framework allocates through defaultAllocator() and what handlers hand over through Emit is accounted")
 	r.Assume("quiescence: a pipe call is complete when the serving goroutine is parked reading an empty request pipe (or the serve loop returned); an in-process HTTP call when ServeHTTP returned")
 	req := []string{"transport.pipe", "transport.http", "config.pipe.external-storage", "config.http.external-storage", "config.http.max-response-bytes",
@@ -85,6 +85,9 @@ func main() {
 		"observed.pipe.cast-accepted", "observed.http.cast-accepted", "observed.pipe.cast-refused", "observed.http.cast-refused", "observed.pipe.cast-refused-after-first-column-cast", "observed.http.cast-refused-after-first-column-cast", "observed.pipe.cast-refused-misnamed-after-first-column-cast", "observed.http.cast-refused-misnamed-after-first-column-cast",
 		"observed.pipe.cancel-delivered", "observed.http.cancel-delivered", "observed.pipe.second-emit-refused-batch-returned", "observed.http.second-emit-refused-batch-returned",
 		"observed.pipe.write-fault-fired.unary", "observed.pipe.write-fault-fired.stream", "observed.http.write-fault-fired",
+		"observed.pipe.upload-failed-result-inline", "observed.http.upload-failed-result-inline",
+		"observed.pipe.stream-request-with-rows0", "observed.http.stream-request-with-rows0", "observed.pipe.stream-request-with-rows2", "observed.http.stream-request-with-rows2",
+		"observed.pipe.header-method-without-header", "observed.http.header-method-without-header",
 		"observed.pipe.serializable-value-delivered", "observed.http.serializable-value-delivered",
 		"observed.pipe.serialisation-failed-at-first-field", "observed.http.serialisation-failed-at-first-field",
 		"observed.pipe.serialisation-failed-after-earlier-fields-built", "observed.http.serialisation-failed-after-earlier-fields-built"}
@@ -93,8 +96,8 @@ func main() {
 	}
 	r.Require(req...)
 
-	n := r.N(504, 12936)
-	per := 21
+	n := r.N(576, 12960)
+	per := 24
 	workers := 6
 	if r.Thorough() {
 		workers, per = min(16, runtime.NumCPU()), 132
